@@ -1,0 +1,87 @@
+//go:build verif
+
+// Contracts for package packed (https://capnproto.org/encoding.html#packing).  Comment-only file.
+// The spec functions are written from the packing specification: a tag byte has bit k set iff
+// byte k of the word is non-zero; the non-zero bytes follow in order; tag 0x00 is followed by a
+// count (0..255) of additional all-zero words; tag 0xff by a count (0..255) of verbatim words.
+package packed
+
+//@ import "io"
+//@ import "bufio"
+
+//@ spec
+//@ func bit(t byte, k int) bool { return (t>>uint(k))&1 == 1 }
+//@ // number of set bits of t below position k (k in 0..8)
+//@ func rank(t byte, k int) int {
+//@ 	m := t & byte((1<<uint(k))-1)
+//@ 	return int(m&1) + int(m>>1&1) + int(m>>2&1) + int(m>>3&1) + int(m>>4&1) + int(m>>5&1) + int(m>>6&1) + int(m>>7&1)
+//@ }
+//@ func pc(t byte) int { return rank(t, 8) }
+//@ func pick(c bool, v byte) byte {
+//@ 	if c {
+//@ 		return v
+//@ 	}
+//@ 	return 0
+//@ }
+//@ end
+
+//@ axiom io_sentinels: io.EOF != nil && io.ErrUnexpectedEOF != nil && io.EOF != io.ErrUnexpectedEOF
+
+// ---------------------------------------------------------------- assumed contracts on dependencies
+
+//@ extern bufio.Reader.Buffered -> n
+//@   modifies nothing
+//@   ensures n >= 0 && n == ghost("bufio.buffered", b)
+
+//@ extern bufio.Reader.Peek -> out, err
+//@   modifies g:bufio.buffered
+//@   old avail int = ghost("bufio.buffered", b)
+//@   ensures implies(err == nil, len(out) == n)
+//@   ensures implies(avail >= n && n >= 0, err == nil)
+//@   -- the returned bytes live in the reader's own buffer
+//@   ensures len(out) == 0 || arrID(out) == ghost("bufio.bufarr", b)
+//@   ensures ghost("bufio.buffered", b) >= avail
+
+//@ extern bufio.Reader.ReadByte -> c, err
+//@   modifies g:bufio.buffered
+
+//@ extern io.ReadFull -> n, err
+//@   -- in this package the reader is always the *bufio.Reader: only the destination buffer and the
+//@   -- bufio.Reader's own state change
+//@   modifies e:uint8 g:bufio.buffered
+//@   ensures 0 <= n && n <= len(buf)
+//@   ensures implies(err == nil, n == len(buf))
+//@   ensures implies(err == io.EOF, n == 0)
+//@   ensures implies(err == io.ErrUnexpectedEOF, 0 < n && n < len(buf))
+
+// ---------------------------------------------------------------- helpers
+
+//@ func min -> r
+//@   props C01 C13
+//@   ensures r <= a && r <= b && (r == a || r == b)
+
+//@ func numZeroWords -> r
+//@   props C01 C13
+//@   ensures 0 <= r && 8*M(r) <= M(len(b))
+//@   ensures forall(0, 8*r, func(j int) bool { return b[j] == 0 })
+//@   ensures implies(8*r+8 <= len(b), !forall(8*r, 8*r+8, func(j int) bool { return b[j] == 0 }))
+//@   loop 0 "range b"
+//@     invariant 0 <= i && i <= len(b)
+//@     invariant forall(0, i, func(j int) bool { return b[j] == 0 })
+
+//@ func allocWords -> r
+//@   props C01 C13
+//@   requires 0 <= n && n <= 255
+//@   ensures len(r) == len(p)+8*n
+//@   ensures forall(0, len(p), func(j int) bool { return r[j] == oldbyte(p, j) })
+//@   ensures forall(len(p), len(r), func(j int) bool { return r[j] == 0 })
+//@   ensures sameArr(r, p) || fresharr(r)
+//@   ensures bytesUnchangedExcept(p, len(p), len(p)+8*n)
+//@   loop 0 "range pp"
+//@     invariant 0 <= i && i <= len(pp)
+//@     invariant len(pp) == 8*n && sameArr(pp, p)
+//@     invariant forall(len(p), len(p)+i, func(j int) bool { return p[j] == 0 }) -- spec indexing beyond len: same array
+//@     invariant bytesUnchangedExcept(p, len(p), len(p)+8*n)
+//@   loop 1 "newcap < target"
+//@     invariant newcap >= 1024 && newcap <= 2*target
+//@     decreases target - newcap
